@@ -117,6 +117,10 @@ pub fn run_derive<D: DModel>(ctx: &mut Ctx) {
             Err(_) => "panic".to_string(),
         };
         ctx.out.m("derive", &s, &["ddec", &d, &hx]);
+        if D::symmetric() && !d.starts_with("DEt") {
+            // the model's generated decoder is the reference deserializer of the definition's schema (C08, C04)
+            ctx.out.o("C04", "derive", &s, &["ddec", &d, &hx]);
+        }
         ctx.out.r("C05", "derive", r.is_ok(), &["no_panic", "ddec", &d, &hx, name]);
         if let Ok(Ok(v)) = &r {
             ctx.out.bump(&format!("derive.{}.ok", name));
